@@ -141,7 +141,7 @@ def strategy():
         alt = draw(st.sampled_from([False, False, True]))
         loc = draw(st.sampled_from([False, False, True]))
         return {"data": data, "feats": sorted(feats) + (["build:alternative-compile-time-defaults"] if alt else []) + (["locale:non-ascii-case-mapping"] if loc else []),
-                "altbuild": alt, "locale": loc}
+                "altbuild": alt, "locale": loc, "shortread": (not alt) and len(data) > 64 and draw(st.sampled_from([False, True]))}
     return case()
 
 
@@ -165,6 +165,7 @@ def parse_conf_output(out):
 
 LOCALE = None
 ALT = "ts-asan-altdefaults"
+SHORTREAD = "ts-asan-shortread"
 ALT_DEFAULTS = {"message_format": b"ALT %{cmdline} u=%{uid} [%{tty}] %{datetime:%H:%M}", "output": b"file:/nonexistent/alt-%{datetime:%Y-%m}-%{snoopy_literal:a:b}.log",
                 "syslog_facility": b"LOCAL2", "syslog_level": b"DEBUG", "filter_chain": b"exclude_uid:77;noop", "error_logging": b"yes"}
 ALT_CONFIGURE = ["--with-message-format=" + ALT_DEFAULTS["message_format"].decode(), "--with-default-output=" + ALT_DEFAULTS["output"].decode(),
@@ -176,6 +177,9 @@ def evaluate(env, c, roundtrip=None):
     # a build whose compile-time defaults are all different from the stock ones: whatever a file does not set (or sets to garbage)
     # falls back to THOSE values
     variant = ALT if c.get("altbuild") and ALT in env.builds else "ts-asan"
+    if c.get("shortread") and variant == "ts-asan" and SHORTREAD in env.builds:
+        # the same library where every read() from a file returns at most 64 bytes (legal; stdio keeps reading, so must anybody else)
+        variant = SHORTREAD
     d = env.driver(variant)
     data = c["data"]
     if any(len(l) > 1022 for l in data.split(b"\n")):
@@ -237,11 +241,11 @@ def classify(c):
         special = special | {"duplicate"}
     nontriv = bool(opts) and bool(special)
     key = (tuple(sorted(special)), tuple(opts)) if nontriv else None
-    return key, sorted(special) + (["has-option"] if opts else ["no-option"]) + (["build:alternative-compile-time-defaults"] if c.get("altbuild") else []) + (["locale:non-ascii-case-mapping"] if c.get("locale") else [])
+    return key, sorted(special) + (["has-option"] if opts else ["no-option"]) + (["build:alternative-compile-time-defaults"] if c.get("altbuild") else []) + (["locale:non-ascii-case-mapping"] if c.get("locale") else []) + (["reads-return-at-most-64-bytes"] if c.get("shortread") else [])
 
 
 def sample(c):
-    return {"data": c["data"], "feats": c["feats"], "altbuild": c.get("altbuild", False), "locale": c.get("locale", False)}
+    return {"data": c["data"], "feats": c["feats"], "altbuild": c.get("altbuild", False), "locale": c.get("locale", False), "shortread": c.get("shortread", False)}
 
 
 FIXED = [
@@ -275,7 +279,8 @@ def main():
     LOCALE = trlocale.build(os.path.join(ctx.run.dir, "locale"))
     if LOCALE is None:
         ctx.inconclusive.append("localedef not available: the non-ASCII-case-mapping locale could not be built, those cases run in the C locale")
-    pbt.run(ctx, {"ts-asan": b, ALT: balt}, strategy, evaluate, classify, nw, per, sample=sample, fixed_cases=FIXED,
+    bshort = dict(b, name=SHORTREAD, driver_kwargs={"extra_preload": [os.path.join(drv.BUILD, "libshortwrite.so")], "extra_env": {"SHORTREAD_CAP": "64"}})
+    pbt.run(ctx, {"ts-asan": b, ALT: balt, SHORTREAD: bshort}, strategy, evaluate, classify, nw, per, sample=sample, fixed_cases=FIXED,
             driver_kwargs={"extra_env": {"LOCPATH": LOCALE[0]}} if LOCALE else None)
     ctx.finish()
 
